@@ -2,6 +2,7 @@ package storeobs
 
 import (
 	"fmt"
+	"sort"
 	"time"
 
 	"go.sia.tech/core/consensus"
@@ -31,7 +32,7 @@ type PendingStep struct {
 
 // ApplyBlock implements chain.Store.
 func (r *Rec) ApplyBlock(s consensus.State, cau consensus.ApplyUpdate) {
-	d := ApplyDiffs(cau)
+	d := ApplyDiffs(s, cau)
 	r.Pending = &PendingStep{Apply: true, Index: s.Index, Diffs: d}
 	if r.Before != nil {
 		r.Before(true)
@@ -45,7 +46,7 @@ func (r *Rec) ApplyBlock(s consensus.State, cau consensus.ApplyUpdate) {
 
 // RevertBlock implements chain.Store.
 func (r *Rec) RevertBlock(s consensus.State, cru consensus.RevertUpdate) {
-	d := RevertDiffs(cru)
+	d := RevertDiffs(s, cru)
 	idx := cru.ChainIndexElement().ChainIndex
 	r.Pending = &PendingStep{Index: idx, Diffs: d}
 	if r.Before != nil {
@@ -84,6 +85,8 @@ type StepRec struct {
 	ProbeSC, ProbeSF, ProbeFC []types.Hash256
 	// leaf index and number of proof entries of every element that probe was served
 	ProbeProofs [][2]uint64
+	// the Tree bucket entries that are new or changed after this step
+	TreeChanges []TreeNode
 	Call        int // index of the manager call during which the step happened (-1: opening the store)
 }
 
@@ -118,12 +121,12 @@ func MaxHeight(t *chaingen.Tree) (h uint64) {
 func InitialDiffs(t *chaingen.Tree, base *chaingen.Node) Diffs {
 	if base == nil {
 		bs := consensus.V1BlockSupplement{Transactions: make([]consensus.V1TransactionSupplement, len(t.Env.Genesis.Transactions))}
-		_, cau := consensus.ApplyBlock(t.Env.Net.GenesisState(), t.Env.Genesis, bs, time.Time{})
-		return ApplyDiffs(cau)
+		cs, cau := consensus.ApplyBlock(t.Env.Net.GenesisState(), t.Env.Genesis, bs, time.Time{})
+		return ApplyDiffs(cs, cau)
 	}
 	bs := consensus.V1BlockSupplement{Transactions: make([]consensus.V1TransactionSupplement, len(base.Block.Transactions))}
-	_, cau := consensus.ApplyBlock(base.Parent.FullState, base.Block, bs, time.Time{})
-	return ApplyDiffs(cau)
+	cs, cau := consensus.ApplyBlock(base.Parent.FullState, base.Block, bs, time.Time{})
+	return ApplyDiffs(cs, cau)
 }
 
 // OpenStore opens a DBStore on db at genesis or at a checkpoint.
@@ -174,6 +177,21 @@ func (n *Node) record(apply bool, idx int, d Diffs) {
 		}
 	}
 	st.View = TakeView(n.DB, n.Inner, n.MaxH)
+	{
+		var prev map[[2]uint64]types.Hash256
+		if len(n.Steps) > 0 {
+			prev = n.Steps[len(n.Steps)-1].View.Tree
+		}
+		for k, h := range st.View.Tree {
+			if old, ok := prev[k]; !ok || old != h {
+				st.TreeChanges = append(st.TreeChanges, TreeNode{k[0], k[1], h})
+			}
+		}
+		sort.Slice(st.TreeChanges, func(i, j int) bool {
+			a, b := st.TreeChanges[i], st.TreeChanges[j]
+			return a.Row < b.Row || a.Row == b.Row && a.Col < b.Col
+		})
+	}
 	st.Probe(n.Inner, n.Names)
 	n.Steps = append(n.Steps, st)
 	if n.OnStep != nil {
